@@ -333,7 +333,7 @@ def compress_inputs(rng, tier, codec):
     for _ in range(reps):
         for L in (0, 1, 14, 15, 16, 59, 60, 61, 62, 255, 256, 257, 269, 270, 271):
             for M in (4, 5, 11, 12, 18, 19, 20, 63, 64, 65, 66, 67, 68, 69, 127, 128, 131, 132, 133, 273, 274, 275):
-                if rng.random() > (0.12 if tier == "quick" else 0.5):
+                if rng.random() > (0.25 if tier == "quick" else 0.6):
                     continue
                 pat = rnd(rng, max(M, 4))
                 sep1 = rnd(rng, 8)
@@ -382,7 +382,7 @@ def compress_inputs(rng, tier, codec):
             n = rng.randrange(300000, 1500000)
             big.append((f"mixed{n}", b"".join(rng.choice([rnd(rng, rng.randrange(1, 400)), bytes([rng.getrandbits(8)]) * rng.randrange(1, 400), b"abcdefgh" * rng.randrange(1, 50)]) for _ in range(n // 200))))
     # random structured inputs
-    nrand = 150 if tier == "quick" else 1500
+    nrand = 600 if tier == "quick" else 5000
     for _ in range(nrand):
         n = rng.randrange(13, 700)
         kind = rng.random()
